@@ -217,6 +217,27 @@ func Fail(fn string) error {
 	return cur.fail[fn]
 }
 
+// FailFor decides, as a pure function of the function name and its arguments, whether an instrumented
+// function fails for these arguments (about every second argument tuple does), and returns the error.
+func FailFor(fn string, args ...any) error {
+	key := fn
+	for _, a := range args {
+		key += "|" + CanonOf(a)
+	}
+	if hashOf("failfor", key)%2 == 0 {
+		// one error value per argument class, so that identity is deterministic too
+		if e, ok := failForCache[key]; ok {
+			return e
+		}
+		e := errors.New("deterministic failure of " + fn + " for " + key)
+		failForCache[key] = e
+		return e
+	}
+	return nil
+}
+
+var failForCache = map[string]error{}
+
 // Ok / Bad record an evaluation.
 func (t *FT) Ok(class string)                    { t.rep.Ok(class) }
 func (t *FT) Bad(class, format string, a ...any) { t.rep.Fail(class, format, a...) }
